@@ -134,6 +134,9 @@ func c05Gen(r *rand.Rand, id int) ([][]database.Command, []c05Step) {
 		case x < 94:
 			s.Op = "update"
 			s.DBSel = r.Intn(3)
+			if x >= 92 { // the monitoring layer's own way of replacing the database
+				s.Op = "monload"
+			}
 		default:
 			s.Op = "stats"
 		}
@@ -188,6 +191,8 @@ func c05Run(c *c05Case, dbs [][]database.Command, dir string) {
 			mdb.CleanupExpiredCache()
 		case "update":
 			mdb.UpdateDatabase(append([]database.Command(nil), loaded[s.DBSel].Commands...))
+		case "monload":
+			mdb.LoadDatabaseWithMonitoring(append([]database.Command(nil), loaded[s.DBSel].Commands...))
 		}
 		st := mdb.GetCacheStats()["search"]
 		s.Hits, s.Misses, s.Size = st.Hits, st.Misses, st.Size
